@@ -317,10 +317,18 @@ func init() {
 			bfs("lsm", 5, 600, prm("oracle", "c12", "mode", "normal", "keys", 2, "inmemory", true, "compression", "zstd", "table_size", 4096, "base_level_size", 8192, "ops", "Sa Sb Da F C0 C1 O X")),
 			bfs("lsm", 5, 600, prm("oracle", "c12", "mode", "normal", "keys", 2, "big", true, "compression", "zstd", "encrypt", true, "mem_table_size", 16<<10, "value_threshold", 32, "nvk", 100, "ops", "Sa Bb Da F C0 C1 O X"))})
 
+	// L0->L0 shapes for C15 (as in C12: the base level is over its target, so compactor 0 merges L0 into itself);
+	// key b has a value-log value, the filler keys are inline
+	c15l0 := prm("oracle", "c12", "keys", 2, "bulk", true, "big", true, "big_size", 1200, "gc", true, "vlog_max_entries", 1, "mem_table_size", 32<<10, "value_threshold", 1024, "l0_tables", 2, "max_levels", 3, "ops", "Ba G F C0 T A")
+	c15fat := "U U U U F "
+	c15deep := "Ux Ux Ux Ux F "
+	c15l0seed := c15deep + c15deep + "C0 " + c15deep + c15deep + c15deep + "C0 Bb " + c15fat + c15fat + c15fat + c15fat + "A T"
 	planTable["C15"] = lsmPlan("Normal- and managed-mode histories with value-log values (one entry per value-log file, so files rotate constantly), deletes, flushes, compactions and RunValueLogGC of the oldest sealed file as explicit transitions (discard statistics forced: any sealed file may be picked), with snapshot transactions, a Get item and an iterator item held in open transactions across the GC: after every transition every read (fresh, snapshot, held items) must be unchanged and no deleted key may reappear. Concurrent part: GC rewrite phases (scan, write-back, file deletion) interleaved with a deleter/compactor, an iterator opened mid-GC, and a snapshot reader whose key is overwritten, flushed and compacted to the last level during the rewrite, under the controlled scheduler.",
 		stateRule,
 		[]Stage{bfs("lsm", 4, 60, prm("oracle", "c12", "mode", "normal", "keys", 2, "big", true, "gc", true, "vlog_max_entries", 1, "l0_tables", 1, "ops", "Ba Bb Da F C0 G Ka Ia Z O X"), seq("Ba Bb F"), seq("Ba Bb Ba F C0")),
-			sched("c15gc", 2, 16, 25, prm("variant", "iter")), sched("c15gc", 2, 16, 30, prm("variant", "delete")), sched("c15gc", 2, 16, 30, prm("variant", "snapshot"))},
+			sched("c15gc", 2, 16, 25, prm("variant", "iter")), sched("c15gc", 2, 16, 30, prm("variant", "delete")), sched("c15gc", 2, 16, 30, prm("variant", "snapshot")),
+			// a GC rewrite puts key@version into a second L0 table; an L0->L0 compaction that leaves the recent table out must keep the newer copy in front
+			bfs("lsm", 4, 40, c15l0, seq(c15l0seed))},
 		[]Stage{bfs("lsm", 6, 900, prm("oracle", "c12", "mode", "normal", "keys", 2, "big", true, "gc", true, "vlog_max_entries", 1, "l0_tables", 1, "ops", "Ba Bb Sa Da F C0 C1 G Ka Ia Z O X"), seq("Ba Bb F"), seq("Ba Bb Ba F C0")),
 			bfs("lsm", 5, 600, prm("oracle", "c12", "mode", "managed", "keys", 2, "big", true, "gc", true, "vlog_max_entries", 2, "l0_tables", 1, "ops", "Ba Bb Da F C0 T G Ka Ia Z"), seq("Ba Bb Ba F")),
 			sched("c15gc", 3, 16, 300, prm("variant", "iter")), sched("c15gc", 3, 16, 600, prm("variant", "delete")), sched("c15gc", 3, 16, 600, prm("variant", "snapshot"))})
